@@ -179,7 +179,8 @@ class SA_VQESolver(VQESolver):
         self.optimal_var_params = optimal_var_params
         self.optimal_energy = optimal_energy
         self.ansatz.build_circuit(self.optimal_var_params)
-        self.optimal_circuit = self.ansatz.circuit
+        # A snapshot: the ansatz circuit itself is updated in place by every later energy evaluation
+        self.optimal_circuit = self.ansatz.circuit.copy()
         return self.optimal_energy
 
     def energy_estimation(self, var_params):
